@@ -793,3 +793,290 @@ Print Assumptions accept_stat_sym_range_min.
 Lemma search2_is_search : forall (acc : Q -> option Q) (initial target : Q),
   search2 acc initial target (acc initial) = search acc initial target.
 Proof. intros. reflexivity. Qed.
+
+(* ====================================================================================== *)
+(* S5': search2 with an ARBITRARY first trial (not assumed equal to `acc initial`): when    *)
+(* the search goes down, `acc` is the backward acceptance and the loop re-evaluates         *)
+(* `initial`, so the loop may stop at once (k = 0) in either direction                      *)
+(* ====================================================================================== *)
+Section Search2Facts.
+  Variable acc : Q -> option Q.
+  Variables (initial target : Q).
+
+  Lemma search2_some a0 :
+    search2 acc initial target (Some a0) =
+    search_loop acc target 100 (negb (Qle_bool a0 target)) initial 0.
+  Proof. reflexivity. Qed.
+
+  Theorem search2_iters_lt_100 a_first s k :
+    search2 acc initial target a_first = SFound s k -> (k < 100)%nat.
+  Proof.
+    destruct a_first as [a0|]; [|discriminate]. rewrite search2_some.
+    intros H. apply search_loop_iters in H. lia.
+  Qed.
+
+  (* number of acceptance evaluations: the first trial + the trials of the loop *)
+  Definition search2_evals (a_first : option Q) : nat :=
+    match a_first with
+    | None => 1
+    | Some a0 => S (loop_evals acc target 100 (negb (Qle_bool a0 target)) initial)
+    end.
+
+  Theorem search2_evals_le_101 a_first : (search2_evals a_first <= 101)%nat.
+  Proof.
+    destruct a_first as [a0|]; unfold search2_evals; [|lia].
+    pose proof (loop_evals_le acc target 100 (negb (Qle_bool a0 target)) initial). lia.
+  Qed.
+
+  Theorem search2_evals_found a_first s k :
+    search2 acc initial target a_first = SFound s k -> search2_evals a_first = (k + 2)%nat.
+  Proof.
+    destruct a_first as [a0|]; [|discriminate]. rewrite search2_some. unfold search2_evals.
+    intros H. apply loop_evals_found in H. lia.
+  Qed.
+
+  Theorem search2_found_iters_evals a_first s k :
+    search2 acc initial target a_first = SFound s k ->
+    (k < 100)%nat /\ search2_evals a_first = (k + 2)%nat.
+  Proof.
+    intros H. split; [exact (search2_iters_lt_100 a_first s k H)|exact (search2_evals_found a_first s k H)].
+  Qed.
+
+  Lemma search2_evals_is_search_evals :
+    search2_evals (acc initial) = search_evals acc initial target.
+  Proof. reflexivity. Qed.
+
+  (* brackets in terms of the exact iterates of the loop *)
+  Theorem search2_brackets_forward_iter a0 s k :
+    target < a0 ->
+    search2 acc initial target (Some a0) = SFound s k ->
+    (k < 100)%nat /\
+    s = iter_step true initial k /\ s == initial * qpow 2 k /\
+    (exists a, acc s = Some a /\ (a <= target \/ hi_limit < s)) /\
+    (forall i, (i < k)%nat -> exists a', acc (iter_step true initial i) = Some a' /\
+                                       target < a' /\ iter_step true initial i <= hi_limit).
+  Proof.
+    intros Ha. rewrite search2_some.
+    assert (Hf : negb (Qle_bool a0 target) = true)
+      by (apply negb_true_iff, Qle_bool_false; assumption).
+    rewrite Hf. intros H.
+    pose proof (search_loop_spec acc target 100 true initial 0) as S. rewrite H in S.
+    destruct S as (j & Hj & Hk & Hs & (a & Hacc & Hstop) & Hc). simpl in Hk. subst k.
+    split; [lia|]. split; [exact Hs|]. split; [|split].
+    - rewrite Hs. apply iter_step_fwd.
+    - exists a. split; auto. apply (stop_fwd_true acc initial) in Hstop; assumption.
+    - intros i Hi. destruct (Hc i Hi) as (a' & E & St). exists a'. split; auto.
+      apply (stop_fwd_false acc initial) in St; assumption.
+  Qed.
+
+  Theorem search2_brackets_backward_iter a0 s k :
+    a0 <= target ->
+    search2 acc initial target (Some a0) = SFound s k ->
+    (k < 100)%nat /\
+    s = iter_step false initial k /\ s == initial / qpow 2 k /\
+    (exists a, acc s = Some a /\ (target <= a \/ s < lo_limit)) /\
+    (forall i, (i < k)%nat -> exists a', acc (iter_step false initial i) = Some a' /\
+                                       a' < target /\ lo_limit <= iter_step false initial i).
+  Proof.
+    intros Ha. rewrite search2_some.
+    assert (Hf : negb (Qle_bool a0 target) = false)
+      by (apply negb_false_iff, Qle_bool_iff; assumption).
+    rewrite Hf. intros H.
+    pose proof (search_loop_spec acc target 100 false initial 0) as S. rewrite H in S.
+    destruct S as (j & Hj & Hk & Hs & (a & Hacc & Hstop) & Hc). simpl in Hk. subst k.
+    split; [lia|]. split; [exact Hs|]. split; [|split].
+    - rewrite Hs. apply iter_step_bwd.
+    - exists a. split; auto. apply (stop_bwd_true acc initial) in Hstop; assumption.
+    - intros i Hi. destruct (Hc i Hi) as (a' & E & St). exists a'. split; auto.
+      apply (stop_bwd_false acc initial) in St; assumption.
+  Qed.
+
+  (* SKeepInitial: exactly a diverged first trial, a divergence at some visited step, or 100 visited
+     steps none of which reaches the stopping test *)
+  Theorem search2_keeps_initial_iff a_first :
+    search2 acc initial target a_first = SKeepInitial <->
+    a_first = None \/
+    exists a0, a_first = Some a0 /\
+      (let fwd := negb (Qle_bool a0 target) in
+       (exists j, (j < 100)%nat /\ acc (iter_step fwd initial j) = None /\
+                  forall i, (i < j)%nat -> continues acc target fwd (iter_step fwd initial i))
+       \/ (forall i, (i < 100)%nat -> continues acc target fwd (iter_step fwd initial i))).
+  Proof.
+    split.
+    - destruct a_first as [a0|]; [|left; reflexivity].
+      rewrite search2_some. intros H. right. exists a0. split; [reflexivity|]. cbv zeta.
+      pose proof (search_loop_spec acc target 100 (negb (Qle_bool a0 target)) initial 0) as S.
+      rewrite H in S. exact S.
+    - intros [->|(a0 & -> & H)]; [reflexivity|]. cbv zeta in H. rewrite search2_some.
+      set (fwd := negb (Qle_bool a0 target)) in *.
+      pose proof (search_loop_spec acc target 100 fwd initial 0) as S.
+      destruct (search_loop acc target 100 fwd initial 0) as [s k|]; [exfalso|reflexivity].
+      destruct S as (j' & Hj' & _ & Hs & (a & Hacc & Hstop) & Hc').
+      destruct H as [(j & Hj & Hn & Hc)|Hc].
+      + destruct (lt_eq_lt_dec j j') as [[L|E]|G].
+        * destruct (Hc' j L) as (a' & E' & _). congruence.
+        * subst j' s. congruence.
+        * destruct (Hc j' G) as (a' & E' & St). subst s. rewrite Hacc in E'.
+          inversion E'; subst. congruence.
+      + destruct (Hc j' Hj') as (a' & E' & St). subst s. rewrite Hacc in E'.
+        inversion E'; subst. congruence.
+  Qed.
+
+  Corollary search2_first_divergence_keeps : search2 acc initial target None = SKeepInitial.
+  Proof. reflexivity. Qed.
+
+  Corollary search2_divergence_keeps a0 j :
+    let fwd := negb (Qle_bool a0 target) in
+    (j < 100)%nat -> acc (iter_step fwd initial j) = None ->
+    (forall i, (i < j)%nat -> continues acc target fwd (iter_step fwd initial i)) ->
+    search2 acc initial target (Some a0) = SKeepInitial.
+  Proof.
+    intros fwd Hj Hn Hc. apply search2_keeps_initial_iff. right. exists a0.
+    split; [reflexivity|]. left. exists j. auto.
+  Qed.
+
+  Corollary search2_exhaustion_keeps a0 :
+    let fwd := negb (Qle_bool a0 target) in
+    (forall i, (i < 100)%nat -> continues acc target fwd (iter_step fwd initial i)) ->
+    search2 acc initial target (Some a0) = SKeepInitial.
+  Proof.
+    intros fwd Hc. apply search2_keeps_initial_iff. right. exists a0.
+    split; [reflexivity|]. right. exact Hc.
+  Qed.
+
+  (* the s/2, 2*s and initial * 2^(+-j) forms, for an oracle that respects Qeq *)
+  Section ProperAcc2.
+    Hypothesis acc_proper : Proper (Qeq ==> eq) acc.
+
+    Theorem search2_brackets_forward a0 s k :
+      target < a0 -> initial <= hi_limit ->
+      search2 acc initial target (Some a0) = SFound s k ->
+      s == initial * qpow 2 k /\ (k < 100)%nat /\
+      (exists a, acc s = Some a /\ (a <= target \/ hi_limit < s)) /\
+      ((1 <= k)%nat -> exists a', acc (s / 2) = Some a' /\ target < a' /\ s / 2 <= hi_limit).
+    Proof.
+      intros Ha _ H.
+      destruct (search2_brackets_forward_iter a0 s k Ha H) as (Hk & Hs & Hq & Hst & Hprev).
+      split; [exact Hq|]. split; [exact Hk|]. split; [exact Hst|]. intros K1.
+      destruct k as [|k]; [lia|].
+      destruct (Hprev k) as (a' & E & T & L); [lia|].
+      assert (Eq : s / 2 == iter_step true initial k).
+      { rewrite Hs. simpl. field. }
+      exists a'. rewrite (acc_proper _ _ Eq). rewrite Eq. auto.
+    Qed.
+
+    Theorem search2_brackets_backward a0 s k :
+      a0 <= target ->
+      search2 acc initial target (Some a0) = SFound s k ->
+      s == initial / qpow 2 k /\ (k < 100)%nat /\
+      (exists a, acc s = Some a /\ (target <= a \/ s < lo_limit)) /\
+      ((1 <= k)%nat -> exists a', acc (2 * s) = Some a' /\ a' < target /\ lo_limit <= 2 * s).
+    Proof.
+      intros Ha H.
+      destruct (search2_brackets_backward_iter a0 s k Ha H) as (Hk & Hs & Hq & Hst & Hprev).
+      split; [exact Hq|]. split; [exact Hk|]. split; [exact Hst|]. intros K1.
+      destruct k as [|k]; [lia|].
+      destruct (Hprev k) as (a' & E & T & L); [lia|].
+      assert (Eq : 2 * s == iter_step false initial k).
+      { rewrite Hs. simpl. field. }
+      exists a'. rewrite (acc_proper _ _ Eq). rewrite Eq. auto.
+    Qed.
+
+    Lemma continues_fwd_ladder i :
+      continues acc target true (iter_step true initial i) <->
+      exists a, acc (initial * qpow 2 i) = Some a /\ target < a /\ initial * qpow 2 i <= hi_limit.
+    Proof.
+      unfold continues. rewrite (acc_proper _ _ (iter_step_fwd initial i)).
+      split; intros (a & E & H); exists a; (split; [exact E|]).
+      - apply (stop_fwd_false acc initial) in H. rewrite <- (iter_step_fwd initial i). exact H.
+      - apply (stop_fwd_false acc initial). rewrite (iter_step_fwd initial i). exact H.
+    Qed.
+
+    Lemma continues_bwd_ladder i :
+      continues acc target false (iter_step false initial i) <->
+      exists a, acc (initial / qpow 2 i) = Some a /\ a < target /\ lo_limit <= initial / qpow 2 i.
+    Proof.
+      unfold continues. rewrite (acc_proper _ _ (iter_step_bwd initial i)).
+      split; intros (a & E & H); exists a; (split; [exact E|]).
+      - apply (stop_bwd_false acc initial) in H. rewrite <- (iter_step_bwd initial i). exact H.
+      - apply (stop_bwd_false acc initial). rewrite (iter_step_bwd initial i). exact H.
+    Qed.
+
+    Lemma keeps_fwd_ladder :
+      ((exists j, (j < 100)%nat /\ acc (iter_step true initial j) = None /\
+                  forall i, (i < j)%nat -> continues acc target true (iter_step true initial i))
+       \/ (forall i, (i < 100)%nat -> continues acc target true (iter_step true initial i))) <->
+      ((exists j, (j < 100)%nat /\ acc (initial * qpow 2 j) = None /\
+                  forall i, (i < j)%nat -> exists a, acc (initial * qpow 2 i) = Some a /\
+                                                   target < a /\ initial * qpow 2 i <= hi_limit)
+       \/ (forall i, (i < 100)%nat -> exists a, acc (initial * qpow 2 i) = Some a /\
+                                              target < a /\ initial * qpow 2 i <= hi_limit)).
+    Proof.
+      split; (intros [(j & Hj & Hn & Hc)|Hc];
+        [left; exists j; split; [exact Hj|]; split;
+           [|intros i Hi; apply continues_fwd_ladder; auto]
+        |right; intros i Hi; apply continues_fwd_ladder; auto]).
+      - rewrite <- (acc_proper _ _ (iter_step_fwd initial j)). exact Hn.
+      - rewrite (acc_proper _ _ (iter_step_fwd initial j)). exact Hn.
+    Qed.
+
+    Lemma keeps_bwd_ladder :
+      ((exists j, (j < 100)%nat /\ acc (iter_step false initial j) = None /\
+                  forall i, (i < j)%nat -> continues acc target false (iter_step false initial i))
+       \/ (forall i, (i < 100)%nat -> continues acc target false (iter_step false initial i))) <->
+      ((exists j, (j < 100)%nat /\ acc (initial / qpow 2 j) = None /\
+                  forall i, (i < j)%nat -> exists a, acc (initial / qpow 2 i) = Some a /\
+                                                   a < target /\ lo_limit <= initial / qpow 2 i)
+       \/ (forall i, (i < 100)%nat -> exists a, acc (initial / qpow 2 i) = Some a /\
+                                              a < target /\ lo_limit <= initial / qpow 2 i)).
+    Proof.
+      split; (intros [(j & Hj & Hn & Hc)|Hc];
+        [left; exists j; split; [exact Hj|]; split;
+           [|intros i Hi; apply continues_bwd_ladder; auto]
+        |right; intros i Hi; apply continues_bwd_ladder; auto]).
+      - rewrite <- (acc_proper _ _ (iter_step_bwd initial j)). exact Hn.
+      - rewrite (acc_proper _ _ (iter_step_bwd initial j)). exact Hn.
+    Qed.
+
+    Theorem search2_keeps_initial_iff_diverged_or_exhausted a_first :
+      search2 acc initial target a_first = SKeepInitial <->
+      a_first = None \/
+      exists a0, a_first = Some a0 /\
+        ((target < a0 /\
+          ((exists j, (j < 100)%nat /\ acc (initial * qpow 2 j) = None /\
+                      forall i, (i < j)%nat -> exists a, acc (initial * qpow 2 i) = Some a /\
+                                                       target < a /\ initial * qpow 2 i <= hi_limit)
+           \/ (forall i, (i < 100)%nat -> exists a, acc (initial * qpow 2 i) = Some a /\
+                                                  target < a /\ initial * qpow 2 i <= hi_limit)))
+         \/
+         (a0 <= target /\
+          ((exists j, (j < 100)%nat /\ acc (initial / qpow 2 j) = None /\
+                      forall i, (i < j)%nat -> exists a, acc (initial / qpow 2 i) = Some a /\
+                                                       a < target /\ lo_limit <= initial / qpow 2 i)
+           \/ (forall i, (i < 100)%nat -> exists a, acc (initial / qpow 2 i) = Some a /\
+                                                  a < target /\ lo_limit <= initial / qpow 2 i)))).
+    Proof.
+      rewrite search2_keeps_initial_iff.
+      split; (intros [H|(a0 & E & H)]; [left; exact H|]); right; exists a0; (split; [exact E|]).
+      - cbv zeta in H. destruct (Qle_bool a0 target) eqn:Q; simpl in H.
+        + right. split; [apply Qle_bool_iff; exact Q|]. apply keeps_bwd_ladder; exact H.
+        + left. split; [apply Qle_bool_false; exact Q|]. apply keeps_fwd_ladder; exact H.
+      - cbv zeta. destruct H as [(L & H)|(L & H)].
+        + apply Qle_bool_false in L. rewrite L. simpl. apply keeps_fwd_ladder; exact H.
+        + apply Qle_bool_iff in L. rewrite L. simpl. apply keeps_bwd_ladder; exact H.
+    Qed.
+  End ProperAcc2.
+End Search2Facts.
+
+Print Assumptions search2_iters_lt_100.
+Print Assumptions search2_evals_le_101.
+Print Assumptions search2_evals_found.
+Print Assumptions search2_found_iters_evals.
+Print Assumptions search2_brackets_forward_iter.
+Print Assumptions search2_brackets_backward_iter.
+Print Assumptions search2_brackets_forward.
+Print Assumptions search2_brackets_backward.
+Print Assumptions search2_keeps_initial_iff.
+Print Assumptions search2_divergence_keeps.
+Print Assumptions search2_exhaustion_keeps.
+Print Assumptions search2_keeps_initial_iff_diverged_or_exhausted.
